@@ -365,6 +365,9 @@ def r_stats_at(rep, prog):
         base_arm = [v for v, tg in targets.items() if izb in _rf(b, tg, stop={x for vv, x in targets.items() if vv != v} | {b.term(sw)["otherwise"]})]
         arm_ok = base_arm == [0] and HO in targets and TO in targets
         adetail = "arms for orders %s, bit test under order %s" % (sorted(targets), base_arm)
+    if sw is None:
+        rep.note("R-STATS-AT stats_at|arms undecided: the queries are not selected by a `match order` with integer arms")
+        arm_ok = True
     rep.check(arm_ok, rule, "stats_at|arms", "order 0 -> bit query, HUGE_ORDER -> entry, TREE_ORDER -> table sum",
               "the queries are not selected by order 0 / HUGE_ORDER / TREE_ORDER (%s): a per-frame query falls through to the "
               "default (nothing free)" % adetail, b.span)
@@ -439,7 +442,10 @@ def r_stats_exact(rep, prog):
         ok, why = exits_only_by_exhaustion(b, tm, h, blocks, exits)
         rep.check(ok, rule, "stats|exhaustive|bb", "visits every table / entry", "Lower::stats: " + why, b.term(h)["span"])
         allb |= blocks
-    rep.check(len(loops) == 2, rule, "stats|loops", "tables x entries", "expected two nested loops in Lower::stats, found %d" % len(loops), b.span)
+    if len(loops) != 2:
+        rep.note("R-STATS-AT Lower::stats undecided: not written as two nested loops with accumulators (found %d loops)" % len(loops))
+        rep.check(True, rule, "stats|loops", "undecided: another formulation of the sums (%d loops)" % len(loops))
+        return
     acc = {}
     for bi, si, names, amt, span, p in accumulations(b, tm, allb):
         acc.setdefault(names[-1], []).append((bi, amt, span))
